@@ -11,8 +11,8 @@ import subprocess
 import sys
 import tracemalloc
 
-from mc import env, monitor
-from mc.diff import run_ref
+from mc import spaces, env, monitor
+from mc.diff import run_ref, ref_auth
 from mc.run import Block
 from ref.optable import op, push
 
@@ -242,6 +242,39 @@ def family_loop_depth(ctx, case):
     ctx.evaluations += n - 1
 
 
+def family_later(ctx, case):
+    """the limits given to run_auth_scripts bind every script of the list, not only the first"""
+    name, script = case
+    n = 0
+    for pos in (1, 2):
+        scripts = [op('TRUE')] * pos + [script]
+        for cl in (1, 2, 3, 5, 16):
+            for mi, ms in ((1024, 1024), (3, 4)):
+                limits = (mi, ms, cl)
+                n += 1
+                ctx.state((script, pos, limits))
+                mon, v = monitor.run_monitored_auth(scripts, limits, cache=CACHE0)
+                ctx.ran()
+                ctx.trans(mon.instr)
+                sig = {'family': 'A4 later scripts', 'position': pos}
+                for inv, detail in mon.problems:
+                    ctx.violation({**sig, 'invariant': inv}, f'{name} as script {pos} limits {limits}: {detail}')
+                if mon.max_loop_iters > cl or mon.max_depth > cl:
+                    ctx.violation({**sig, 'invariant': 'call-stack limit binds later scripts'},
+                                  f'{name} as script {pos} limits {limits}: depth {mon.max_depth}, loop iterations {mon.max_loop_iters}')
+                ctx.outcome('later:%s' % (v if type(v) is bool else type(v).__name__))
+                ro = {k: x for k, x in CACHE0.items() if type(k) is str}
+                c0 = {k: x for k, x in CACHE0.items() if type(k) is bytes}
+                want, _ = ref_auth(scripts, ro=ro, limits=limits, cache0=c0, now=int(env.Clock.now))
+                ctx.ran()
+                if type(want) is not bool:
+                    ctx.unspec(want[1])
+                elif v is not want:
+                    ctx.violation({**sig, 'invariant': 'authorization verdict under the limits'},
+                                  f'{name} as script {pos} limits {limits}: run_auth_scripts {v!r}, reference {want}')
+    ctx.evaluations += n - 1
+
+
 def family_b(ctx, names):
     """every byte-prefix of the program (truncated operands) under the default limits"""
     lim = (1024, 1024, 128)
@@ -253,6 +286,13 @@ def family_b(ctx, names):
         ctx.state((full[:cut], 'prefix'))
         check_run(ctx, full[:cut], lim, {'family': 'B truncation'})
     ctx.evaluations += max(n - 1, 0)
+
+
+def family_b2(ctx, case):
+    """malformed byte strings derived from every <=2-node control program (prefixes, perturbed lengths/opcodes)"""
+    p, kind, pos, code = case
+    ctx.state((code, kind))
+    check_run(ctx, code, (1024, 1024, 128), {'family': 'B2 malformed control programs'})
 
 
 HUGE = [2 ** 16, 2 ** 20, 2 ** 24, 2 ** 31, 2 ** 63, -1, -(2 ** 31)]
@@ -422,7 +462,13 @@ def blocks(tier, seed):
               'unbounded CALL / self-EVAL recursion routed through every construct kind and pair of kinds x call-stack limits 1,2,3,4,16', nshards=64),
         Block('A3_loops_at_call_depth', loop_depth_cases(), family_loop_depth,
               'a never-ending loop under every chain (<= 3) of CALL/EVAL/IF/TRY/EXCEPT levels x call-stack limits 1,2,3,5,16', nshards=64),
+        Block('A4_later_scripts', loop_depth_cases() + recursion_cases(), family_later,
+              'never-ending loops / unbounded recursion as the 2nd and 3rd script of run_auth_scripts x call-stack limits 1,2,3,5,16 '
+              'x two item-limit pairs', nshards=64),
         Block('B_truncations', pairs, family_b, 'every byte-prefix of every <=2 statement program', nshards=64),
+        Block('B2_malformed_control', lambda s, n: spaces.malformed(2, 'full', s, n), family_b2,
+              'every byte-prefix and single-byte perturbation of every full-grammar program with <= 2 nodes (taken and not-taken bodies)',
+              nshards=64),
         Block('D_huge_operands', huge_cases(), family_d, 'count/size/index operands from stack or tape x huge values, tracemalloc peak', nshards=32),
         Block('E_deep_nesting_recursion', [family_e_cases(tier)], family_e, 'nesting depth {1,8,64,250} x recursion on the bare VM (fresh process)', nshards=1, backstop=1800),
     ]
